@@ -670,6 +670,14 @@ theorem C14_composite_trim_merge {V : Type} (f : (Nat × V) → (Nat × V) → (
       = compTrim size after (KMap.merge f a b) :=
   trim_merge f size after a b ha hb
 
+/-- extracted code shape behind `C14_histogram_bucket` for a plain `histogram` on a date column: the
+request (interval, offset, hard and extended bounds, given in milliseconds) is converted to the
+column's unit (nanoseconds) BEFORE the collect-time bounds and the offset are read
+(`normalize_histogram_req`: `normalize_date_time()` precedes `req_data.bounds = …` and
+`req_data.offset = …`; the extractor fails when the order changes), so that `histPos` / `inHard`
+of the model compare values and bounds in ONE unit (`C14_histogram_unit_invariant`). -/
+theorem C14_histogram_request_normalised_before_bounds : Gen.AGG_HIST_NORMALIZE_BEFORE_BOUNDS = 1 := by decide
+
 /-- merging after a serialisation round trip that is the identity on intermediate trees gives
 the same result (that postcard's round trip *is* the identity is tested by the harness, not
 proved) -/
@@ -906,6 +914,8 @@ example : finalize (M := Int) (.both (.terms ⟨0, Option.none, 1, 1, 1, .keyAsc
     (mergeFruits _ ([[[(0, [3])], [(0, [1])]], [[(0, [2])], [(0, [1])]]].map
       (collectSeg (M := Int) (.both (.terms ⟨0, Option.none, 1, 1, 1, .keyAsc⟩ .none) (.filter 0 1 .none)))))
     = (([(1, 2, ())], 2, 2), (2, ())) := by decide +kernel
+/-- in one unit the hard bounds select the values 2000..5500: positions 2..5 for interval 1000 -/
+example : ([1000, 2000, 3000, 3500, 4000, 5000, 6000].filter (inHard (some (2000, 5500)))).map (histPos 1000 0) = [2, 3, 3, 4, 5] := by decide
 example : (compTrim 1 Option.none (compTrim 2 Option.none (KMap.merge (fun a _ => a) (KMap.single 3 (1, ()))
     (KMap.merge (fun a _ => a) (KMap.single 1 (1, ())) (KMap.single 2 (1, ())))))).entries = [(1, 1, ())] := by decide +kernel
 example : [0, 10, 20].Pairwise (fun a b : Int => a < b) := by decide
